@@ -56,6 +56,9 @@ FOREST = {
     "bar.baz": ("bar/baz.py", ["foo_bar"]),
     "bar.bazooka": ("bar/bazooka.py", []),
     "fo": ("fo.py", []),
+    # look-alikes of the DOTTED names foo.sub / bar.baz: another character where the dot is (a dot in a hook name is a literal dot)
+    "fooxsub": ("fooxsub.py", []),
+    "bar_baz": ("bar_baz.py", []),
     # a library that hooks itself from its own __init__ (the "writing a library" example of the install_import_hook docs)
     "selfhook": ("selfhook/__init__.py", []),
     "selfhook.core": ("selfhook/core.py", []),
@@ -70,7 +73,7 @@ IMPORT_LINES = {
     "bar.baz": "import foo_bar\n",
     "selfhook": "from jaxtyping import install_import_hook as _iih\nwith _iih('selfhook', 'typeguard.typechecked'):\n    from . import core\ndel _iih\n",
 }
-ALL_ORDER = ["fo", "foobar", "foo_bar", "foo", "foo.sub.deep", "bar.bazooka", "bar.baz", "foobar.inner", "foo.other"]
+ALL_ORDER = ["fo", "foobar", "foo_bar", "fooxsub", "foo", "foo.sub.deep", "bar.bazooka", "bar_baz", "bar.baz", "foobar.inner", "foo.other"]
 
 SPYCHK = '''
 import functools, inspect
@@ -361,8 +364,8 @@ def imports(names, how="stmt"):
 
 
 def single_hook_templates(nm, ck):
-    A1, C1 = ["foo", "foobar", "bar.baz"], ["foo.sub.deep", "foo_bar", "fo", "bar.bazooka", "foo.other", "foobar.inner"]
-    A2, C2 = ["foo.sub", "fo", "bar"], ["foo.other", "foobar.inner", "bar.bazooka", "foo"]
+    A1, C1 = ["foo", "foobar", "bar.baz", "fooxsub"], ["foo.sub.deep", "foo_bar", "fo", "bar.bazooka", "foo.other", "foobar.inner", "bar_baz"]
+    A2, C2 = ["foo.sub", "fo", "bar", "bar_baz"], ["foo.other", "foobar.inner", "bar.bazooka", "foo", "fooxsub"]
     return {
         "all-api": [["install", "h", nm, ck]] + imports(ALL_ORDER) + [["uninstall", "h"]],
         "split-with": [["with", "h", nm, ck, imports(A1), False]] + imports(C1, "importlib"),
